@@ -26,6 +26,19 @@ impl<'a> Ctx<'a> {
 
 fn decode(c: &mut Ctx, f: &[u8], field: &str) -> Option<Value> {
     c.r.evaluations += 1;
+    // a feed also delivers cut frames: before one frame in four (chosen by its own hash, so that a replay agrees) the
+    // decoder is offered a truncated, empty or over-long input; the fields of the frame must not depend on it
+    let h = crate::util::fnv(f);
+    if h % 4 == 2 {
+        let junk: Vec<u8> = match (h >> 8) % 5 {
+            0 => f[..1.min(f.len())].to_vec(),
+            1 => f[..3.min(f.len())].to_vec(),
+            2 => f[..7.min(f.len()).min(f.len().saturating_sub(1))].to_vec(),
+            3 => vec![],
+            _ => f.iter().copied().chain([0x11, 0x22]).collect(),
+        };
+        let _ = guarded(|| Message::try_from(junk.as_slice()).is_ok());
+    }
     match guarded(|| Message::try_from(f).map(|m| serde_json::to_value(&m))) {
         Err((loc, msg)) => {
             c.r.violation(&format!("C03:panic:{field}:{}", short_loc(&loc)), format!("{field}: decoding {} panicked: {}", hexs(f), msg_class(&msg)), json!({"frame": hexs(f), "field": field}));
@@ -809,7 +822,7 @@ fn positioned_one(c: &mut Ctx, frames: &[Vec<u8>], stamps: &[f64], reference: Op
 }
 
 pub fn run(a: &Args, r: &mut Report) {
-    r.rule = "per field: every code of the field (or the stated stratified sample in quick) is encoded by the independent standards-based encoder, with plausible companions for Comm-B registers, decoded by the real Message::try_from and read back from serde_json::to_value; compared with the physical value within one quantisation step (exactly, for integer-valued fields). in addition histories of 2-7 position reports of one aircraft go through decode_positions and every field of every record (the position set aside) must still be the one decoded from the record's own frame. distinct_nontrivial = distinct (field, code) pairs that round-tripped".into();
+    r.rule = "per field: every code of the field (or the stated stratified sample in quick) is encoded by the independent standards-based encoder, with plausible companions for Comm-B registers, decoded by the real Message::try_from and read back from serde_json::to_value; compared with the physical value within one quantisation step (exactly, for integer-valued fields). before one frame in four the decoder is offered a truncated, empty or over-long input; in addition histories of 2-7 position reports of one aircraft go through decode_positions and every field of every record (the position set aside) must still be the one decoded from the record's own frame. distinct_nontrivial = distinct (field, code) pairs that round-tripped".into();
     r.assumptions.push("sentinel codes (0 = no information, 127 in the GNSS/baro difference, movement 0 / 125..127) are not judged".into());
     r.assumptions.push("Comm-B registers are judged inside the decoder's documented plausibility envelope only (roll <= 50 deg, GS <= 600 kt, TAS in [80,500], |GS-TAS| <= 200, IAS 1..500, Mach <= 1, |vrate| <= 6000 ft/min, consistent roll/turn-rate signs, IAS/Mach consistency)".into());
     r.assumptions.push("call signs: the decoder strips spaces; undefined 6-bit codes must give '#'".into());
